@@ -349,8 +349,9 @@ struct PkGen {
     Recipe r; static const long rates[] = {8000, 11025, 16000, 22050, 32000, 44100, 48000, 44100};
     for (int tries = 0; tries < 50; tries++) {
       r = Recipe(); r.rate = rates[g.below(8)]; double cc = g.unit(); r.ch = cc < 0.35 ? 1 : cc < 0.8 ? 2 : cc < 0.9 ? 3 : cc < 0.95 ? 6 : 4;
+      if (!thorough ? g.chance(0.03) : g.chance(0.06)) r.ch = 9 + (int)g.below(g.chance(0.2) ? 247 : 40);   // thin share of many-channel streams
       r.q = -0.1 + g.unit() * 1.1; r.mode = g.chance(0.15) ? 1 + (int)g.below(3) : 0; if (r.mode) r.nominal = (long)(r.rate * 1.4 * std::min(r.ch, 2) * (0.6 + g.unit()));
-      r.n = g.chance(0.15) ? (int64_t)g.range(0, 600) : g.range(2000, thorough ? 60000 : 30000); if (r.ch > 2) r.n = std::min<int64_t>(r.n, 60000 / r.ch);
+      r.n = g.chance(0.15) ? (int64_t)g.range(0, 600) : g.range(2000, thorough ? 60000 : 30000); if (r.ch > 2) r.n = std::min<int64_t>(r.n, 60000 / r.ch); if (r.ch > 8) r.n = std::min<int64_t>(r.n, 2500);
       r.sig = (int)g.below(6); r.seed = g.below(40); r.ncomm = (int)g.below(3);
       if (r.ch >= 2 && r.ch <= 8 && g.chance(0.25)) r.mute = 1 + (int)g.below((1u << r.ch) - 2);
       // restrict to a pool so that workers re-use encoded links
